@@ -392,6 +392,12 @@ def features(descr: dict) -> Dict[str, Any]:
 
 # ----------------------------------------------------------------------------- running the implementation
 _READY = False
+INTERFACE_MODULE = "test.dataset.ormatic_interface"   # the DAO layer in use; harness/c05.py substitutes a freshly generated one
+
+
+def interface():
+    import importlib
+    return importlib.import_module(INTERFACE_MODULE)
 
 
 def setup_impl():
@@ -402,7 +408,7 @@ def setup_impl():
     from sqlalchemy.orm import configure_mappers
     from krrood.ormatic.dao import get_dao_class
     from test.dataset import example_classes as ex
-    import test.dataset.ormatic_interface  # noqa: F401  the generated DAO layer
+    interface()  # the generated DAO layer
     configure_mappers()
     # the field order the model walks must be the order of the DAO mapper's relationships
     for cn, refs in REFS.items():
@@ -442,6 +448,64 @@ def explain(descr) -> str:
     """Replay helper: runs the case on the real code and prints what differs."""
     res = run_impl(descr)
     return json.dumps({"impl": res.get("exc") or res.get("py_iso") or "isomorphic", "result_heap": res.get("heap")}, default=str)
+
+
+def shrink(descr: dict, fails, budget: int = 150) -> dict:
+    """Greedy delta debugging on the abstract graph: drop collection elements, clear optional references, move the
+    root to a referenced object; keep a step when [fails] still holds.  [fails] runs the real implementation."""
+    import copy
+    cur = descr
+    runs = 0
+    changed = True
+    while changed and runs < budget:
+        changed = False
+        cands = []
+        for i, o in enumerate(cur["objs"]):
+            for f, kind, _t, opt in REFS.get(o["c"], []):
+                ks = o["r"].get(f, [])
+                if kind == "many":
+                    for j in range(len(ks)):
+                        cands.append(("drop", i, f, j))
+                elif ks and opt:
+                    cands.append(("none", i, f, 0))
+        for k in sorted({k for o in cur["objs"] for ks in o["r"].values() for k in ks}):
+            if k != cur["root"]:
+                cands.append(("root", k, "", 0))
+        for kind, i, f, j in cands:
+            if runs >= budget:
+                break
+            c = copy.deepcopy(cur)
+            if kind == "drop":
+                if i >= len(c["objs"]) or j >= len(c["objs"][i]["r"].get(f, [])):
+                    continue
+                del c["objs"][i]["r"][f][j]
+            elif kind == "none":
+                if i >= len(c["objs"]):
+                    continue
+                c["objs"][i]["r"][f] = []
+            else:
+                c["root"] = i
+            c = prune(c)
+            if len(json.dumps(c)) >= len(json.dumps(cur)):
+                continue
+            runs += 1
+            try:
+                bad = fails(c)
+            except Exception:  # noqa
+                bad = False
+            if bad:
+                cur = c
+                changed = True
+                break
+    return cur
+
+
+def _fails_like(res0):
+    """same kind of failure as the original: an exception, or a difference found by the bisimulation"""
+    def f(d):
+        res = run_impl(d)
+        return ("exc" in res) if "exc" in res0 else ("exc" not in res and res.get("py_iso") is not None)
+    return f
 
 
 def state_reuse_scenario(attempts: int = 400) -> Dict[str, Any]:
@@ -590,6 +654,11 @@ def run(tier: str, seed: int, replay=None) -> int:
 
     for m, why in bad[:5]:
         detail = {}
+        small = shrink(m["descr"], _fails_like(m["res"]))
+        if small != m["descr"]:
+            m = {"descr": small, "origin": m["origin"] + " (shrunk)", "ft": features(small), "res": run_impl(small)}
+            m["heap"], m["root"], _ = input_heap(small)
+            why = "exception " + m["res"]["exc"] if "exc" in m["res"] else f"shrunk: {m['res'].get('py_iso')}"
         if "heap" in m["res"] and model_ok:
             try:
                 alts = alts_term()
@@ -605,7 +674,7 @@ def run(tier: str, seed: int, replay=None) -> int:
                        "explanation": "canonical form = [root, [object: [class id, scalar ids, [[field tag, [targets]]]]]] in DFS discovery order; "
                                       "spec = canon of the input graph, impl = canon of from_dao(to_dao(input)) on the real code"})
     # known findings / fixed entries
-    for f in findings:
+    for f in (findings if replay is None else []):
         w = json.loads((core.VERIF / f.witness).read_text())
         if f.cls == "K_state_reuse":
             _run_state_reuse(rep, [f], only=False)
